@@ -254,8 +254,8 @@ func buildPool(c *Ctx, n int) []poolStr {
 }
 
 func runC04(c *Ctx, phase string) {
-	nPool := c.Pick(24000, 100000) / c.NShards
-	nCases := c.Pick(400000, 2000000) / c.NShards
+	nPool := c.Pick(24000, 200000) / c.NShards
+	nCases := c.Pick(400000, 6000000) / c.NShards
 	c.Meta("a pool of strings with known token structure (generator-valid expressions, single terms, random token sequences, token prefixes and one-token mutations of valid expressions, fixed edge strings) "+
 		"is fed to all three entry points: ValidateLicenses over lists of 0..12 pool entries with repeats; ExtractLicenses on every pool string; Satisfies with a pool string as expression and lists of 0..8 entries "+
 		"(valid single terms, invalid entries and compound entries placed at every position in turn). distinct = (function, arguments); a case is non-trivial when its list has >=1 entry or it is an extract call",
